@@ -458,6 +458,8 @@ PROPS["C10"] = {
           ["armor::reader::Dearmor::{read_body,crc24_status}", "base64::Base64Decoder::read", "base64::Base64Reader::read", "crc24::Crc24Hasher"],
           "body concrete (%s), footer checksum symbolic (2^24 values)" % what)
         for sfx, what in [("", "'AAAA'"), ("_b", "'SGVsbG8h'")]
+    ] + [
+        H("c10_dearmor_options_builder", "c10_dearmor", "quick", 300, "DearmorOptions builder: any order of enable_crc24_check / set_limit keeps both settings, checking is off by default", ["armor::reader::DearmorOptions::{new,default,set_limit,enable_crc24_check}"], "limits symbolic usize"),
     ],
 }
 
@@ -516,7 +518,7 @@ PROPS["C06"] = {
 MDC_F = ["crypto::sym::decryptor::StreamDecryptorInner::<Aes128,&[u8]>::{finalize_data,fill_inner,read}", "sha1::Sha1::{update,finalize} (compression stubbed)"]
 V2_F = ["crypto::aead::decryptor::StreamDecryptor::<&[u8]>::{decrypt,decrypt_last,fill_inner,read,out_buffer_remaining}", "util::fill_buffer_bytes"]
 PROPS["C03"] = {
-    "inject": [("src/crypto/sym/decryptor.rs", "c03_mdc"), ("src/crypto/aead/decryptor.rs", "c03_aead")],
+    "inject": [("src/crypto/sym/decryptor.rs", "c03_mdc"), ("src/crypto/aead/decryptor.rs", "c03_aead"), ("src/lib.rs", "c03_cfg")],
     "mem_gb": 14,
     "level_text": "Bounded model checking of the decision steps of the real stream decryptors, each from a state built by struct literal. SEIPDv1: with 22 "
                   "arbitrary trailing octets finalize_data accepts exactly D3 14 || digest, a refusal leaves the reader in its error state and every read from "
@@ -541,6 +543,8 @@ PROPS["C03"] = {
         H("c03_seipdv2_truncated_0", "c03_aead", "quick", 300, "read() when the source ends with 0 octets left and nothing buffered: error, never a clean empty end", V2_F, "tail 0 octets"),
         H("c03_seipdv2_truncated_1", "c03_aead", "thorough", 300, "same with 1 arbitrary trailing octet", V2_F, "tail 1 symbolic octet"),
         H("c03_seipdv2_truncated_15", "c03_aead", "quick", 300, "same with 15 arbitrary trailing octets (one short of a tag)", V2_F, "tail 15 symbolic octets"),
+        H("c03_seipd_config_octets", "c03_cfg", "quick", 600, "SEIPD header parser on version 2 + arbitrary cipher/AEAD/chunk-size octets + salt: Ok iff chunk-size octet <= 16; parse + serialise keeps every octet (no normalisation of altered header fields)", ["packet::sym_encrypted_protected_data::Config::{try_from_reader,to_writer,write_len}"], "3 parameter octets + 2 salt octets symbolic"),
+        H("c03_seipd_config_version", "c03_cfg", "quick", 300, "every version octet other than 2: accepted iff 1", ["packet::sym_encrypted_protected_data::Config::try_from_reader"], "version octet symbolic"),
         H("c03_mdc_decision_streaming", "c03_mdc", "quick", 900, "streaming mode: finalize_data on 2 data octets + 22 arbitrary octets: Ok iff tag D3, length 14 and all 20 digest octets match; Ok => Done with exactly the data; Err => Error state", MDC_F, "22 symbolic MDC octets, 2 symbolic data octets"),
         H("c03_mdc_decision_check_first", "c03_mdc", "quick", 900, "same in check-first mode", MDC_F, "22 symbolic MDC octets, 2 symbolic data octets"),
         H("c03_error_state_is_sticky", "c03_mdc", "quick", 300, "read()/fill_inner() from the error state: always Err, state unchanged (no clean end of stream, no octet released)", MDC_F, "consumer buffer length symbolic 0..4"),
